@@ -54,7 +54,7 @@ func evalC01(src []byte, cfg string) (o Outcome) {
 }
 
 func oracleC01() *Result {
-	r := &Result{Rule: "real parser.Parse under recover + watchdog (3 s + 40 µs/byte, solo re-run) + heap limit, versions x {callback, nil}; buffer compared with a copy. Generators: G-bytes exhaustive over a 27-symbol alphabet after 24 mode-entering prefixes (k=2 quick, k=3 thorough), every truncation of corpus snippets, byte mutations, random fragment soup. Non-trivial = distinct non-empty input"}
+	r := &Result{Rule: "real parser.Parse under recover + watchdog (3 s + 40 µs/byte, solo re-run) + heap limit, versions x {callback, nil}; buffer compared with a copy. Generators: G-bytes exhaustive over a 27-symbol alphabet after 24 mode-entering prefixes (k=2 quick, k=3 thorough), every truncation of corpus snippets, byte mutations, random fragment soup, 16 nesting forms (braces, control structures, interpolation in quotes / backticks / heredoc, brackets, calls) at depths around every power of two up to 600 (thorough: every depth to 140 and around powers of two to 3000). Non-trivial = distinct non-empty input"}
 	rng := newRand("C01")
 	versions := "5.6,7.2,7.4"
 	k, nrand, nmut := 2, 3000, 6
@@ -105,6 +105,40 @@ func oracleC01() *Result {
 	long := bytes.Repeat([]byte("<?php $a = [1, 2, 3]; /* c */ echo \"x $a[0] {$b->c}\";\n?>\n"), 3000)
 	add(long, "long")
 	add(append(long, []byte("<?php \"$")...), "long")
+	// deep nesting: the scanner's call stack (one frame per `{` in code, per `{$` / `${` / `$a[` in a
+	// string-like mode) and the parser's value stack grow with the nesting depth
+	depths := []int{1, 2, 3, 7, 8, 9, 15, 16, 17, 18, 31, 32, 33, 34, 63, 64, 65, 66, 100, 127, 128, 129, 130, 257, 600}
+	if opts.Tier == "thorough" {
+		depths = nil
+		for d := 1; d <= 140; d++ {
+			depths = append(depths, d)
+		}
+		depths = append(depths, 255, 256, 257, 258, 511, 512, 513, 1023, 1024, 1025, 1026, 3000)
+	}
+	rep := strings.Repeat
+	for _, d := range depths {
+		nests := []string{
+			"<?php " + rep("{", d),
+			"<?php " + rep("{", d) + rep("}", d),
+			"<?php " + rep("if ($a) { ", d) + "$b = 1;" + rep(" }", d),
+			"<?php function f() { " + rep("while ($a) { ", d) + rep("} ", d) + "}",
+			"<?php $x = " + rep("\"{$a[", d) + "1" + rep("]}\"", d) + ";",
+			"<?php $x = " + rep("\"${a[", d) + "1" + rep("]}\"", d) + ";",
+			"<?php $x = " + rep("`{$a[", d) + "1" + rep("]}`", d) + ";",
+			"<?php $x = " + rep("\"{$a[", d),
+			"<?php $x = \"" + rep("$a[", d),
+			"<?php $x = " + rep("[", d) + "1" + rep("]", d) + ";",
+			"<?php $x = " + rep("(", d) + "1" + rep(")", d) + ";",
+			"<?php $x = " + rep("f(", d) + rep(")", d) + ";",
+			"<?php $x = <<<A\n" + rep("{$a[\"", d) + "1" + rep("\"]}", d) + "\nA;\n",
+			"<?php " + rep("{", d) + " ?>" + rep("}", d),
+			"<?php " + rep("}", d),
+			"<?php \"" + rep("}", d),
+		}
+		for _, n := range nests {
+			add([]byte(n), "nesting")
+		}
+	}
 	runOracle(r, tasks)
 	return r
 }
